@@ -136,6 +136,56 @@ func checkC17(c *Check) {
 	c.Rule("R4", "every success value of the key functions has passed IDNA decoding (domain), NFC and lower-casing, NFC before case folding", 5)
 	c17Chains(c)
 
+	// ---- R4c: the decoder is particular about the ACE prefix. idna.ToUnicode (x/net/idna, plain Punycode profile)
+	// decodes a label only when it starts with the lower-case "xn--"; DNS names and the ACE prefix are
+	// case-insensitive, `user@XN--E1AYBC.example` is a spelling of `user@тест.example` a client may well send. A key
+	// function that hands the raw domain to the decoder maps that spelling to a second key (`xn--e1aybc.example`), and is
+	// not idempotent on it (the second application decodes what the first one lowered). Decided: in the key functions,
+	// the argument of idna.ToUnicode has passed a function that lowers the ASCII letters (evaluated at 'A', 'Z', '@', '[').
+	c.Rule("R4c", "key functions (dns.ForLookup, address.CleanDomain): the domain handed to idna.ToUnicode has its ASCII letters lowered first – the decoder recognises only the lower-case ACE prefix (A3)", 2)
+	c.Assume("A3: idna.ToUnicode decodes only labels that begin with the lower-case ACE prefix \"xn--\" and leaves other labels as they are (demonstrated against the vendored x/net version: findings/C17_ace_prefix_case_test.go.txt)")
+	for _, kf := range [][2]string{{"framework/dns", "ForLookup"}, {"framework/address", "CleanDomain"}} {
+		fi := p.Func(kf[0], "", kf[1])
+		if fi == nil {
+			c.Fail("R4c", kf[1], token.NoPos, "anchor unresolved")
+			continue
+		}
+		info := fi.Info()
+		c.SawFunc(fi.Name())
+		n := 0
+		msg := ""
+		ast.Inspect(fi.Decl.Body, func(x ast.Node) bool {
+			call, ok := x.(*ast.CallExpr)
+			if !ok || !isCall(info, call, "golang.org/x/net/idna.ToUnicode") || len(call.Args) != 1 {
+				return true
+			}
+			n++
+			arg := resolveLocal(info, fi.Decl.Body, call.Args[0])
+			lowered := false
+			if lc, isCall_ := ast.Unparen(arg).(*ast.CallExpr); isCall_ {
+				if isCall(info, lc, "strings.ToLower") {
+					lowered = true
+				} else if isCall(info, lc, "strings.Map") && len(lc.Args) == 2 {
+					if fl, isLit := ast.Unparen(lc.Args[0]).(*ast.FuncLit); isLit && lowersASCIIBody(info, fl.Body) {
+						lowered = true
+					}
+				} else if fn := callee(info, lc); fn != nil {
+					if d := p.DeclOf(fn); d != nil && d.Decl.Body != nil && lowersASCIIBody(d.Info(), d.Decl.Body) {
+						lowered = true
+					}
+				}
+			}
+			if !lowered {
+				msg = "line " + itoa(p.Fset.Position(call.Pos()).Line) + ": the domain reaches idna.ToUnicode as the caller spelled it (" + exprStr(call.Args[0]) + "): an A-label written with an upper-case ACE prefix (user@XN--E1AYBC.example) is not decoded, gets a key of its own (xn--e1aybc.example instead of тест.example) and the function is not idempotent on it"
+			}
+			return true
+		})
+		if n == 0 {
+			msg = "undecided: no call of idna.ToUnicode"
+		}
+		c.Hold("R4c", kf[1]+":ace-prefix-case", fi.Decl.Pos(), msg == "", msg)
+	}
+
 	// ---- R6: ASCII/Unicode conversions are conversions, not key functions
 	c.Rule("R6", "ToASCII / ToUnicode change only the encoding of the domain (IDNA, plus NFC for the Unicode form): no case folding, trimming or key normalisation, local part untouched – otherwise the conversions do not round-trip", 2)
 	for _, name := range []string{"ToASCII", "ToUnicode"} {
@@ -732,4 +782,33 @@ func splitComplement(p *Prog, fi *FuncInfo) (bool, string) {
 		return false, "index is searched in another string"
 	}
 	return true, ""
+}
+
+
+// lowersASCIIBody: the body lowers exactly the ASCII capitals: it compares a character with the constants 'A' and 'Z'
+// and adds the distance to the lower-case letters.
+func lowersASCIIBody(info *types.Info, body ast.Node) bool {
+	hasA, hasZ, hasDelta := false, false, false
+	ast.Inspect(body, func(x ast.Node) bool {
+		e, ok := x.(ast.Expr)
+		if !ok {
+			return true
+		}
+		tv, has := info.Types[e]
+		if !has || tv.Value == nil {
+			return true
+		}
+		if n, isInt := constInt(tv); isInt {
+			switch n {
+			case 'A':
+				hasA = true
+			case 'Z':
+				hasZ = true
+			case 'a' - 'A':
+				hasDelta = true
+			}
+		}
+		return true
+	})
+	return hasA && hasZ && hasDelta
 }
